@@ -32,6 +32,8 @@ fn main() {
             "C17" => props::c17::replay(&v),
             "C03" | "C04" | "C07" | "C08" | "C14" => props::w4props::replay(&v),
             "C05" | "C11" => props::w2props::replay(&v),
+            "C18" => props::c18::replay(&v),
+            "C20" => props::c20::replay(&v),
             "C01" | "C02" | "C06" | "C13" => props::w3props::replay(&v),
             _ => eprintln!("no replay for {prop}"),
         }
@@ -63,6 +65,8 @@ fn main() {
         "C14" => props::w4props::run_c14(tier),
         "C05" => props::w2props::run_c05(tier),
         "C11" => props::w2props::run_c11(tier),
+        "C18" => props::c18::run(tier),
+        "C20" => props::c20::run(tier),
         "C01" => props::w3props::run_ring(props::w3props::Which::C01, tier),
         "C02" => props::w3props::run_ring(props::w3props::Which::C02, tier),
         _ => {
